@@ -31,17 +31,19 @@ SHAPES = ["Arc", "Bell", "Binary", "Concave", "Cosine", "Discrete", "Gaussian", 
           "Triangle", "ZShape"]
 MONOTONIC = ["Arc", "Concave", "Ramp", "Sigmoid", "SShape", "ZShape"]
 NONMONO = [s for s in SHAPES if s not in MONOTONIC]
+# (the last entry of each list is a user-defined subclass registered in the factory under its class name, see USER_COMPONENTS)
 TNORMS = ["AlgebraicProduct", "BoundedDifference", "DrasticProduct", "EinsteinProduct", "HamacherProduct", "Minimum",
-          "NilpotentMinimum"]
+          "NilpotentMinimum", "UserProduct"]
 SNORMS = ["AlgebraicSum", "BoundedSum", "DrasticSum", "EinsteinSum", "HamacherSum", "Maximum", "NilpotentMaximum",
-          "NormalizedSum", "UnboundedSum"]
+          "NormalizedSum", "UnboundedSum", "UserProbOr"]
 HEDGES = ["any", "extremely", "not", "seldom", "somewhat", "very"]
 # the public extension points: a hedge that wraps a Python callable and one that owns a Function term, registered by name
 # in the default hedge factory (as a user would) so that rule texts can use them
-EXT_HEDGES = ["squared", "rooted"]
-INTEGRAL = ["Bisector", "Centroid", "LargestOfMaximum", "MeanOfMaximum", "SmallestOfMaximum"]
-WEIGHTED = ["WeightedAverage", "WeightedSum"]
-ACTIVATIONS = ["General", "First", "Last", "Highest", "Lowest", "Proportional", "Threshold"]
+EXT_HEDGES = ["squared", "rooted", "userhalf"]  # userhalf: a user-defined Hedge subclass registered as a class
+INTEGRAL = ["Bisector", "Centroid", "LargestOfMaximum", "MeanOfMaximum", "SmallestOfMaximum", "UserCentroid"]
+WEIGHTED = ["WeightedAverage", "WeightedSum", "UserWeightedAverage"]
+ACTIVATIONS = ["General", "First", "Last", "Highest", "Lowest", "Proportional", "Threshold", "UserGeneral"]
+GENERAL = ["General", "General", "General", "UserGeneral"]  # the General activation method and a user-defined subclass of it
 COMPARATORS = ["<", "<=", "==", "!=", ">=", ">"]
 
 # formulas over input variable names ({a}, {b}) and x; together they use every registered operator / function
@@ -481,6 +483,52 @@ class InputGain(fl.Term):
         self.gain, self.height = self._parse(1, parameters)
 
 
+class UserProduct(fl.TNorm):
+    """User-defined t-norm written from the documentation of the extension point."""
+
+    def compute(self, a, b):
+        return fl.scalar(a) * fl.scalar(b)
+
+
+class UserProbOr(fl.SNorm):
+    def compute(self, a, b):
+        a = fl.scalar(a)
+        b = fl.scalar(b)
+        return a + b - a * b
+
+
+class Userhalf(fl.Hedge):  # the registered name is the lower-cased class name
+    def hedge(self, x):
+        return 0.5 * fl.scalar(x)
+
+
+class UserCentroid(fl.Centroid):
+    """Users specialise the shipped classes: nothing overridden, another class name (factory, exporter, importer, copy)."""
+
+
+class UserWeightedAverage(fl.WeightedAverage):
+    pass
+
+
+class UserGeneral(fl.General):
+    pass
+
+
+USER_COMPONENTS = {"UserProduct": UserProduct, "UserProbOr": UserProbOr, "UserCentroid": UserCentroid,
+                   "UserWeightedAverage": UserWeightedAverage, "UserGeneral": UserGeneral}
+_fm = fl.settings.factory_manager
+_fm.tnorm.constructors["UserProduct"] = UserProduct
+_fm.snorm.constructors["UserProbOr"] = UserProbOr
+_fm.hedge.constructors["userhalf"] = Userhalf
+_fm.defuzzifier.constructors["UserCentroid"] = UserCentroid
+_fm.defuzzifier.constructors["UserWeightedAverage"] = UserWeightedAverage
+_fm.activation.constructors["UserGeneral"] = UserGeneral
+
+
+def component_class(name: str):
+    return USER_COMPONENTS.get(name) or getattr(fl, name)
+
+
 USER_TERMS = {"DomainRamp": DomainRamp, "InputGain": InputGain}
 for _n, _c in USER_TERMS.items():
     fl.settings.factory_manager.term.constructors[_n] = _c
@@ -568,21 +616,21 @@ def build_norm(name: str | None):
         return fl.NormLambda(obj.compute if name.startswith("NormLambda:scaled_method") else obj)
     if name.startswith("NormLambda:"):
         return fl.NormLambda(NORM_LAMBDAS[name.split(":", 1)[1]])
-    return getattr(fl, name)()
+    return component_class(name)()
 
 
 def build_defuzzifier(d: dict | None):
     if not d:
         return None
     if "resolution" in d:
-        return getattr(fl, d["cls"])(resolution=int(d["resolution"]))
-    return getattr(fl, d["cls"])(type=d.get("type", "Automatic"))
+        return component_class(d["cls"])(resolution=int(d["resolution"]))
+    return component_class(d["cls"])(type=d.get("type", "Automatic"))
 
 
 def build_activation(a: dict | None):
     if not a:
         return None
-    cls = getattr(fl, a["cls"])
+    cls = component_class(a["cls"])
     if a["cls"] in ("First", "Last"):
         return cls(rules=int(a["rules"]), threshold=fdec(a["threshold"]))
     if a["cls"] in ("Highest", "Lowest"):
